@@ -196,7 +196,7 @@ def on_circle(rng, nps, rad):
     return (rng.choice([-1, 1]) * a * k, rng.choice([-1, 1]) * b * k)
 
 
-def row_wrapper(rng, nps, mu_0):
+def row_wrapper(rng, nps, mu_0, in_out=None):
     from magpylib._src.fields.field_BH_cylinder_segment import BHJM_cylinder_segment, BHJM_cylinder_segment_internal
 
     sc = 10.0 ** nps.uniform(-3, 3)
@@ -298,13 +298,18 @@ def row_wrapper(rng, nps, mu_0):
         pol[:] = 0.0
     f = rng.choice("BHJM")
     mode = "raw" if (rk not in ("ring", "over360") and rng.random() < 0.3) else "int"
+    if in_out:  # through getBH_level1 with the keyword in_out: the class's function is the internal wrapper
+        mode = "int"
     dim = np.array([[r1, r2, h, p1, p2]])
-    line = f"kern cylseg {mode} {f} {enc(x)} {enc(dim)} {enc(pol)}"
+    line = (f"kern l1 {({'bogus': 'other'}).get(in_out, in_out)} " if in_out else "kern ") + f"cylseg {mode} {f} {enc(x)} {enc(dim)} {enc(pol)}"
     meta = {"kind": "cylseg", "mode": mode, "field": f, "stratum": f"range:{rk} obs:{os_} pol:{pk}", "x": x.tolist(), "dim": dim[0].tolist(),
-            "pol": pol.tolist()}
+            "pol": pol.tolist(), **({"l1": in_out} if in_out else {})}
     try:
         with np.errstate(all="ignore"), alarm(30):
-            if mode == "int":
+            if in_out:
+                from corr.kern_family import level1_call
+                v = level1_call(BHJM_cylinder_segment_internal, f, x, in_out, polarization=pol[None], dimension=dim)
+            elif mode == "int":
                 v = BHJM_cylinder_segment_internal(field=f, observers=x[None], polarization=pol[None], dimension=dim)[0]
             else:
                 v = BHJM_cylinder_segment(field=f, observers=x[None], dimension=dim, polarization=pol[None])[0]
